@@ -208,7 +208,10 @@ func Zip[`, "option.Map2#second", "second operand and the function ignored (a co
 		Mutant{"C15", "option-unmarshal-no-nil-check", "option.go", `func (r *Option[T]) UnmarshalJSON(b []byte) error {
 	if r == nil {
 		return Error(http.StatusBadRequest, "target ptr is nil")
-	}`, `func (r *Option[T]) UnmarshalJSON(b []byte) error {`, "fp.Option.UnmarshalJSON", "nil receiver dereferenced"},
+	}`, `func (r *Option[T]) UnmarshalJSON(b []byte) error {
+	if len(b) == 0 && r == nil {
+		return Error(http.StatusBadRequest, "target ptr is nil")
+	}`, "fp.Option.UnmarshalJSON", "nil receiver dereferenced unless the input is empty"},
 		Mutant{"C15", "option-marshal-self", "option.go", `	if r.IsDefined() {
 		return json.Marshal(r.Get())
 	}
